@@ -125,6 +125,15 @@ def cases(tier, rng):
                 yield case_line(op, t, v)
     for h in range(24):
         yield case_line('t.acc', [h * 3600 + 1234 % 3600, 5])
+        yield case_line('ndt.tacc', [2024, 60, h * 3600 + 1234 % 3600, 5])
+    # the same through impl Timelike for NaiveDateTime (dates: range ends, a leap day, year ends)
+    ndates = [[-262143, 1], [262142, 365], [2024, 60], [2023, 365], [1970, 1], [0, 366]]
+    for i, t in enumerate(times):
+        d = ndates[i % len(ndates)]
+        yield case_line('ndt.tacc', d + t)
+        for v in FIELD[::2] + FIELD[-1:]:
+            for which in range(4):
+                yield case_line('ndt.twith', which, d + t, v)
     # ---- addition / subtraction of durations
     for t in times:
         durs = [td_of_ns(n) for n in dur_lattice(t[1])] + [[MAXS, MAXN], [MINS, MINN], [MAXS, 0], [MINS + 1, 0],
@@ -207,8 +216,15 @@ def cases(tier, rng):
             op = rng.choice(['t.with_hour', 't.with_minute', 't.with_second', 't.with_nano'])
             v = rng.choice([rng.randint(0, 70), rng.randint(0, 70), rng.randint(0, 2 * G + 10), rng.randint(0, U32_MAX)])
             yield case_line(op, t, v)
-        elif r < 0.92:
+        elif r < 0.9:
             yield case_line('t.acc', t)
+        elif r < 0.92:
+            d = rng.choice([[-262143, 1], [262142, 365], [2024, 60], [rng.randint(-262143, 262142), rng.randint(1, 365)]])
+            if rng.random() < 0.3:
+                yield case_line('ndt.tacc', d + t)
+            else:
+                v = rng.choice([rng.randint(0, 70), rng.randint(0, 70), rng.randint(0, 2 * G + 10), rng.randint(0, U32_MAX)])
+                yield case_line('ndt.twith', rng.randint(0, 3), d + t, v)
         elif r < 0.96:
             op = rng.choice(['t.hms_milli', 't.hms_micro', 't.hms_nano'])
             scale = {'t.hms_milli': 10**6, 't.hms_micro': 10**3, 't.hms_nano': 1}[op]
